@@ -34,7 +34,7 @@ def run(ctx):
             for k in ([1, 28] if thorough else [4]):  # quick: four query rounds, so that several cap entries are selected
                 cases = [{"kind": "entry", "path": p, "op": op, "wrapper": w} for p in paths for op in ("+1", "random", "zero")]
                 cases += [{"kind": "other", "other": other, "wrapper": w}] + [{"kind": "random", "wrapper": w} for _ in range(3)]
-                cases += [{"kind": "permute", "wrapper": w}]
+                cases += [{"kind": "permute", "wrapper": w}, {"kind": "alias", "wrapper": w}]
                 for i in range(4):
                     jobs.append({"part": "c04", "instance": inst, "k": k, "c04": cases[i::4], "shard": i + 10 * k})
 
